@@ -530,7 +530,12 @@ func (l *vfLogBuf) Reset()                      { l.mu.Lock(); l.b.Reset(); l.mu
 func (p *vfProxy) Server() *httptest.Server {
 	p.srvOnce.Do(func() {
 		p.srvLog = &vfLogBuf{}
-		p.srv = httptest.NewUnstartedServer(p.Handler)
+		// the handler side holds the build lock (it may still be logging after the client has read the response)
+		p.srv = httptest.NewUnstartedServer(http.HandlerFunc(func(w http.ResponseWriter, r *http.Request) {
+			vfBuildMu.RLock()
+			defer vfBuildMu.RUnlock()
+			p.Handler.ServeHTTP(w, r)
+		}))
 		p.srv.Config.ErrorLog = log.New(p.srvLog, "", 0)
 		p.srv.Start()
 		p.W.OnClose(func() { p.srv.CloseClientConnections(); p.srv.Close() })
@@ -542,8 +547,6 @@ func (p *vfProxy) Server() *httptest.Server {
 // loopback client address; r.RemoteAddr is ignored.
 func (p *vfProxy) Wire(r *vfReq) *vfResp {
 	srv := p.Server()
-	vfBuildMu.RLock()
-	defer vfBuildMu.RUnlock()
 	addr := strings.TrimPrefix(srv.URL, "http://")
 	c, err := net.DialTimeout("tcp", addr, 5*time.Second)
 	if err != nil {
